@@ -207,6 +207,11 @@ func genNumberLit(t *rapid.T) string {
 		return sb.String()
 	case 5: // shortest rendering of a random double
 		b := rapid.Uint64().Draw(t, "bits")
+		if rapid.IntRange(0, 3).Draw(t, "bigint") == 0 {
+			// large integer-valued doubles (2^53 .. 2^70) written in float notation
+			b = uint64(1023+rapid.IntRange(53, 70).Draw(t, "bexp"))<<52 | b&(1<<52-1) | 1
+			return strconv.FormatFloat(math.Float64frombits(b), 'f', 1, 64)
+		}
 		if (b>>52)&0x7ff == 0x7ff {
 			b &^= 1 << 52
 		}
